@@ -40,6 +40,7 @@ type Step struct {
 	Fault  string  `json:"fault,omitempty"` // commit: info-dir reg-write reg-write-keep reg-open; create: list-dir store-file; drop: list-dir
 	FS     string  `json:"fs,omitempty"`    // store targeted by info-dir
 	Nth    int     `json:"nth,omitempty"`   // reg-write: which WriteAt fails
+	Force  int     `json:"force,omitempty"` // apidump: 0 = the fresh process decides, 1|2 = that folder is made active
 	Pauses []Pause `json:"pauses,omitempty"`
 }
 type Pause struct {
@@ -530,8 +531,8 @@ func (r *runner) observe() {
 		"mem": r.mem(), "rs1": rsOf(r.l.Folders[0]), "rs2": rsOf(r.l.Folders[1]), "nlogs": commitLogCount(r.activeFolder())})
 }
 
-func (r *runner) apidump() {
-	cmd := exec.Command(r.selfExe, "dump", r.l.Root)
+func (r *runner) apidump(force int) {
+	cmd := exec.Command(r.selfExe, "dump", r.l.Root, fmt.Sprint(force))
 	var so, se bytes.Buffer
 	cmd.Stdout, cmd.Stderr = &so, &se
 	err := cmd.Run()
@@ -544,6 +545,7 @@ func (r *runner) apidump() {
 		return
 	}
 	d["ev"] = "ApiDump"
+	d["force"] = force
 	r.emit(d)
 }
 
@@ -712,6 +714,15 @@ func (r *runner) reinstate(st Step) {
 	}
 	r.emit(Event{"ev": "ReinDone", "ok": err == nil, "phase": phase, "err": es, "mem": r.mem(),
 		"p": sideImg(readFolder(r.passiveFolder()))})
+	// pause points that were never reached (e.g. B without pending logs): their steps run now
+	for _, p := range st.Pauses {
+		if steps, ok := want[p.At]; ok {
+			r.emit(Event{"ev": "Note", "what": "pause " + p.At + " not reached; its steps run after the reinstate"})
+			for _, s := range steps {
+				r.step(s)
+			}
+		}
+	}
 }
 
 func (r *runner) step(st Step) {
@@ -735,7 +746,11 @@ func (r *runner) step(st Step) {
 	case "observe":
 		r.observe()
 	case "apidump":
-		r.apidump()
+		f := st.Force
+		if f < 0 { // -1: whatever folder is passive now
+			f = 3 - r.act()
+		}
+		r.apidump(f)
 	default:
 		r.emit(Event{"ev": "Error", "what": "unknown op " + st.Op})
 	}
@@ -768,9 +783,13 @@ func one(root string) {
 }
 
 // dump: fresh process, read-only transaction through the public API
-func dump(root string) {
+func dump(root string, force int) {
 	ctx := context.Background()
 	l := newLayout(root)
+	if force > 0 {
+		// observation with the active folder toggled by the harness: this process treats folder `force` as active
+		fs.GlobalReplicationDetails = &fs.ReplicationTrackedDetails{ActiveFolderToggler: force == 1, FailedToReplicate: true}
+	}
 	out := map[string]any{"err": "", "folder": 0, "failed": false, "stores": []any{}}
 	fail := func(what string, err error) {
 		out["err"] = what + ": " + err.Error()
@@ -909,7 +928,11 @@ func main() {
 	case "one":
 		one(os.Args[2])
 	case "dump":
-		dump(os.Args[2])
+		force := 0
+		if len(os.Args) > 3 {
+			fmt.Sscanf(os.Args[3], "%d", &force)
+		}
+		dump(os.Args[2], force)
 	default:
 		os.Exit(2)
 	}
